@@ -263,6 +263,8 @@ fn c08_grid(tier: Tier) -> Vec<Program> {
         IntegDecl::DigestOfOtherBlob,
         IntegDecl::WrongTail,
         IntegDecl::CaseToggled,
+        IntegDecl::MultiThree,
+        IntegDecl::MultiRightInTheMiddle,
     ];
     let keys = vec!["k".to_string(), "other".to_string()];
     let mut out = Vec::new();
